@@ -161,6 +161,22 @@ class Lower:
 
     def stmts(self, sts):
         sts = nonempty(sts)
+        # const auto n = cls.vtbl.size();  (the v-table is not modified here)  and the index loop over it, read as the counted range-for
+        if self.section == 'vtbls' and self.cls and self.entry is None:
+            VT = ('member', ('id', self.cls), 'vtbl', False)
+            for st in list(sts):
+                if st[0] == 'decl' and st[1].replace(' ', '').startswith('const') and len(st[2]) == 1 and st[2][0][1] == call0(VT, 'size'):
+                    sts = mc._subst_ids([x for x in sts if x is not st], {st[2][0][0]: call0(VT, 'size')})
+            sts = mc.index_to_range(sts, lambda C: [call0(C, 'size')])
+            # std::size_t i = 0; for (entry : cls.vtbl) { ...; ++i; }   -> the loop, its counter remembered
+            for k in range(len(sts) - 1):
+                a, b = sts[k], sts[k + 1]
+                if (a[0] == 'decl' and len(a[2]) == 1 and a[2][0][1] == ('num', 0) and b[0] == 'rangefor' and b[2] == VT and body_of(b[3])
+                        and body_of(b[3])[-1] == ('expr', ('un', '++', ('id', a[2][0][0])))
+                        and not mc._assigns(body_of(b[3])[:-1], a[2][0][0]) and not mc._mentions(sts[k + 2:], a[2][0][0])):
+                    self.counter = a[2][0][0]
+                    sts = sts[:k] + [(b[0], b[1], b[2], ('block', body_of(b[3])[:-1]))] + sts[k + 2:]
+                    break
         out = []
         i = 0
         while i < len(sts):
@@ -207,8 +223,11 @@ class Lower:
                     if self.transform_u16(init, ('member', ('id', self.method), field, True)) == 'all':
                         return ctor           # the returned iterator is not used for output
             if (init is not None and self.entry and self.cls and init[0] == 'cond' and init[2] == ('id', 'stop_bit') and init[3] == ('num', 0)
-                    and init[1] in (('bin', '==', ('un', '&', ('id', self.entry)), ('un', '&', call0(('member', ('id', self.cls), 'vtbl', False), 'back'))),
-                                    ('bin', '==', ('un', '&', call0(('member', ('id', self.cls), 'vtbl', False), 'back')), ('un', '&', ('id', self.entry))))):
+                    and init[1] in [('bin', '==', ('un', '&', ('id', self.entry)), ('un', '&', call0(('member', ('id', self.cls), 'vtbl', False), 'back'))),
+                                    ('bin', '==', ('un', '&', call0(('member', ('id', self.cls), 'vtbl', False), 'back')), ('un', '&', ('id', self.entry)))]
+                    + ([('bin', '==', ('bin', '+', ('id', self.counter), ('num', 1)), call0(('member', ('id', self.cls), 'vtbl', False), 'size')),
+                        ('bin', '==', call0(('member', ('id', self.cls), 'vtbl', False), 'size'), ('bin', '+', ('id', self.counter), ('num', 1)))]
+                       if getattr(self, 'counter', None) else [])):        # position + 1 == size: the last entry, position-wise
                 self.stop = name
                 return 'WSetStopIfLast'
             if init is not None and self.entry and init == ('index', ('id', 'methods'), ('member', ('id', self.entry), 'method_index', False)):
